@@ -330,3 +330,24 @@ func topFeatures(m map[string]int, n int) []string {
 	}
 	return ks
 }
+
+// oracleSelfCheck runs the Go-toolchain self-check on a sample of this run's
+// programs; a disagreement is an oracle fault (exit 2), never a violation.
+func oracleSelfCheck(c *Check, cases []BashCase, max int) {
+	progs := []*Program{}
+	step := len(cases)/max + 1
+	for i := 0; i < len(cases); i += step {
+		progs = append(progs, cases[i].Prog)
+	}
+	compared, problems := GoSelfCheck(progs)
+	c.Extra["oracle_self_check_go_toolchain"] = map[string]int{"programs_compared": compared, "disagreements": len(problems)}
+	if len(problems) > 0 {
+		for i, p := range problems {
+			if i < 3 {
+				fmt.Println("INCONCLUSIVE oracle-self-check:", p)
+			}
+		}
+		cleanupScratch()
+		os.Exit(2)
+	}
+}
